@@ -262,6 +262,10 @@ PROPS = {
 }
 
 
+# Properties registered in MANIFEST.json (tools/mkmanifest.py).  A bounded module under development contributes to PROPS (so
+# `./verif check <pid>` can be run on it) but is not claimed until its id is listed here.
+CLAIMED = ["C01", "C02", "C06", "C07", "C09", "C10", "C11", "C12", "C13", "C14", "C17", "C18", "C19", "C20", "C21", "C27", "C28"]
+
 BROKEN = {}  # pid -> import error of a bounded module that (by its file name cNN_...) serves that property
 
 
